@@ -175,6 +175,8 @@ def register_kernels2(w):
         isnone, nm = sel(na[0], v.term), sel(na[1], v.term)
         if isinstance(r, VNone):
             return z3.Or(isnone, z3.Length(nm) == 0)
+        if isinstance(r, VOpt):      # unforced result (element expression of a symbolic comprehension)
+            return z3.And(r.isnone == z3.Or(isnone, z3.Length(nm) == 0), z3.Implies(z3.Not(r.isnone), r.val.term == nm))
         return z3.And(z3.Not(isnone), r.term == nm, z3.Length(nm) > 0)
     w.add_contract(Contract("jax2onnx.converter.optimizer_graph_utils:_v_name", params={"v": Opt(Ref(VALUE))}, ret=Opt(Str),
                             ensures=[("is_the_nonempty_name", post_vname)], raises=set(), props=["C02"]))
